@@ -1922,3 +1922,59 @@ pub fn lock_arrival_family(tier: &str) -> Vec<Program> {
     }
     out
 }
+
+
+/// Channel messages whose `Drop` performs a loom RMW: a message is already queued when the
+/// receiver is dropped while another thread (which touched the same atomic before) sends.
+pub fn chan_payload_family() -> Vec<Program> {
+    let mut out = vec![];
+    let objs = Objs { chans: 1, atomics: vec![0], chan_rmw: vec![Some(0)], ..Default::default() };
+    let recvs: Vec<Vec<Op>> = vec![
+        vec![K::DropRx { ch: 0 }.into()],
+        vec![K::Recv { ch: 0 }.into(), K::DropRx { ch: 0 }.into()],
+        vec![K::TryRecv { ch: 0 }.into(), K::DropRx { ch: 0 }.into()],
+        vec![K::Recv { ch: 0 }.into()],
+    ];
+    for presends in 1..=2u64 {
+        for r in &recvs {
+            for nsend in 1..=2u64 {
+                for touch in [true, false] {
+                    let pre: Vec<Op> = (0..presends).map(|i| Op::from(K::Send { ch: 0, v: 90 + i })).collect();
+                    let mut sender: Vec<Op> = vec![];
+                    if touch {
+                        sender.push(st(0, 7, Sc));
+                    }
+                    for i in 0..nsend {
+                        sender.push(K::Send { ch: 0, v: 1 + i }.into());
+                    }
+                    out.push(with_main("CHAN+payload", objs.clone(), pre, vec![sender, r.clone()], vec![], vec![]));
+                }
+            }
+        }
+    }
+    out
+}
+
+/// Deadlocks in which one thread blocks forever while *holding* a lock that another thread
+/// needs to return from `Condvar::wait` / to lock (so destructors run while the lock is held
+/// by somebody else when the deadlock panic unwinds).
+pub fn held_lock_deadlocks() -> Vec<Program> {
+    let o = Objs { atomics: vec![0], mutexes: 2, condvars: 1, ..Default::default() };
+    let lk = |m| Op::from(K::Lock { m });
+    let ul = |m| Op::from(K::Unlock { m });
+    vec![
+        // main notifies and then joins the waiter while still holding the mutex
+        with_main("DL-join-holding", o.clone(), vec![], vec![vec![lk(0), K::Wait { cv: 0, m: 0 }.into(), ul(0)]], vec![lk(0), K::NotifyOne { cv: 0 }.into()], vec![ul(0)]),
+        // the same with the roles swapped: the spawned thread holds the mutex and blocks on a second one
+        with_main(
+            "DL-child-holding",
+            o.clone(),
+            vec![lk(1)],
+            vec![vec![lk(0), K::NotifyAll { cv: 0 }.into(), lk(1), ul(1), ul(0)]],
+            vec![lk(0), K::Wait { cv: 0, m: 0 }.into(), ul(0)],
+            vec![ul(1)],
+        ),
+        // a plain locker instead of a condvar waiter
+        with_main("DL-lock-holding", o.clone(), vec![], vec![vec![lk(0), ul(0)]], vec![lk(0)], vec![ul(0)]),
+    ]
+}
